@@ -163,7 +163,7 @@ pub proof fn lemma_window_bounds(w: int, x4: int, wlow: int, e3: int, s2: int, t
 
 
 //@ extract src/algorithms/div/knuth.rs fn div_nxm
-/*+*/#[verifier::rlimit(2000)]/*-*/
+/*+*/#[verifier::rlimit(2000)] #[verifier::spinoff_prover]/*-*/
 pub fn div_nxm(numerator: &mut [u64], divisor: &mut [u64])
     /*+*/requires
         old(divisor).len() >= 3,
